@@ -366,10 +366,17 @@ def _run_history(scn, sim, res, root):
                 # was copied, a task that was renamed)
                 if os.path.isdir(os.path.dirname(path)) and \
                         not os.path.isdir(path):
-                    other = 'somebody-else-%d' % (op.get('junk', 0) % 7)
-                    dct = {} if op.get('junk', 0) % 3 == 0 else {
-                        other: {'status': status_enum.DONE, 'version': -1,
-                                'output_dir': os.path.dirname(path)}}
+                    junk = op.get('junk', 0)
+                    other = 'somebody-else-%d' % (junk % 7)
+                    # a side entry written by a task next to its own (no
+                    # status), an entry that is not a mapping, an entry of
+                    # another task, an empty environment
+                    dct = ({}, {other: {'status': status_enum.DONE,
+                                        'version': -1,
+                                        'output_dir': os.path.dirname(path)}},
+                           {other: {'output_dir': os.path.dirname(path)}},
+                           {other: 5}, {other: None},
+                           {other: {'status': 'DONE'}})[junk % 6]
                     with faultfs._REAL_OPEN(path, 'wb') as fil:
                         pickle.dump(env_mod.Env(dct), fil)
                     foreign.add(i)
